@@ -90,4 +90,59 @@ theorem liftX_of_even (Y : YCongr L) (P : α) (hP : L.abs P ≠ 0) (he : o.y P %
 theorem ycongr : YCongr L := ⟨L.y_congr⟩
 
 end Lawful
+
+/-! ## the same consequences for the `lift_x`-free bundle `LawfulGroup` (additive) -/
+namespace LawfulGroup
+variable {α G : Type} [AddCommGroup G] {o : GroupOps α} (L : LawfulGroup o G)
+
+theorem x_congr {P Q : α} (h : L.abs P = L.abs Q) (hP : L.abs P ≠ 0) : o.x P = o.x Q :=
+  (L.x_eq_iff P Q hP (h ▸ hP)).2 (Or.inl h)
+
+theorem x_congr_neg {P Q : α} (h : L.abs P = - L.abs Q) (hP : L.abs P ≠ 0) : o.x P = o.x Q := by
+  have hQ : L.abs Q ≠ 0 := by
+    intro h0; rw [h0, neg_zero] at h; exact hP h
+  exact (L.x_eq_iff P Q hP hQ).2 (Or.inr h)
+
+theorem hasEvenY_congr {P Q : α} (h : L.abs P = L.abs Q) (hP : L.abs P ≠ 0) :
+    o.hasEvenY P = o.hasEvenY Q := by
+  have := L.y_congr P Q h hP
+  rw [Bool.eq_iff_iff]
+  simp only [GroupOps.hasEvenY, beq_iff_eq]
+  exact this
+
+theorem n_smul_eq_zero (g : G) (P : α) (h : g = L.abs P) : o.n • g = 0 := h ▸ L.order P
+
+/-- a non-zero element has order exactly `n` (prime exponent) -/
+theorem zsmul_eq_zero_iff (m : Int) (P : α) (hP : L.abs P ≠ 0) :
+    m • L.abs P = 0 ↔ o.n ∣ m := by
+  constructor
+  · intro h
+    by_contra hnd
+    have hp : Prime (o.n) := by
+      have := Nat.prime_iff_prime_int.mp L.n_prime
+      rwa [Int.toNat_of_nonneg (le_of_lt L.n_pos)] at this
+    have hc : IsCoprime o.n m := (Prime.coprime_iff_not_dvd hp).2 hnd
+    obtain ⟨a, b, hab⟩ := hc
+    have : (a * o.n + b * m) • L.abs P = 0 := by
+      rw [add_zsmul, mul_zsmul, mul_zsmul, L.order, h, zsmul_zero, zsmul_zero, add_zero]
+    rw [hab, one_zsmul] at this
+    exact hP this
+  · rintro ⟨k, rfl⟩
+    rw [mul_comm, mul_zsmul, L.order, zsmul_zero]
+
+theorem mul_gen_ne_zero (q : Int) (h0 : 0 < q) (hn : q < o.n) : L.abs (o.mul q o.gen) ≠ 0 := by
+  rw [L.abs_mul]
+  intro h
+  have := (L.zsmul_eq_zero_iff q o.gen L.gen_ne_zero).1 h
+  have := Int.le_of_dvd h0 this
+  omega
+
+/-- two scalars act alike on a non-zero element iff they are congruent mod `n` -/
+theorem zsmul_eq_zsmul_iff (a b : Int) (P : α) (hP : L.abs P ≠ 0) :
+    a • L.abs P = b • L.abs P ↔ o.n ∣ a - b := by
+  rw [← L.zsmul_eq_zero_iff (a - b) P hP, sub_zsmul]
+  rw [← sub_eq_add_neg]
+  exact (sub_eq_zero (a := a • L.abs P) (b := b • L.abs P)).symm
+
+end LawfulGroup
 end Btc
